@@ -47,6 +47,7 @@ func (v1pr Vector1PropertyReader) buildAscii(element Element) asciiPropertyReade
 				offset:         i,
 				modelAttribute: v1pr.ModelAttribute,
 				scalarType:     scalarType,
+				bitSize:        asciiBitSize(scalar.Type),
 				plyProperty:    v1pr.PlyProperty,
 			}
 		}
@@ -56,16 +57,26 @@ func (v1pr Vector1PropertyReader) buildAscii(element Element) asciiPropertyReade
 	return nil
 }
 
+// asciiBitSize is the precision a scalar's text is parsed with: double
+// properties keep all 64 bits, everything else fits in 32
+func asciiBitSize(t ScalarPropertyType) int {
+	if t == Double {
+		return 64
+	}
+	return 32
+}
+
 type builtAsciiVector1PropertyReader struct {
 	arr            []float64
 	scalarType     ScalarPropertyType
+	bitSize        int
 	modelAttribute string
 	offset         int
 	plyProperty    string
 }
 
 func (bav3pr builtAsciiVector1PropertyReader) Read(buf []string, i int64) error {
-	v, err := strconv.ParseFloat(buf[bav3pr.offset], 32)
+	v, err := strconv.ParseFloat(buf[bav3pr.offset], bav3pr.bitSize)
 	if err != nil {
 		return err
 	}
